@@ -7,6 +7,7 @@ for d in "$DIR"/seeded/benign/BENIGN-*/ "$DIR"/seeded/benign/own_cli_refactor.di
   out=$("$DIR/tools/mutant.sh" "$p" C06 C07 C14 C15 C16 C17 2>&1)
   nv=$(echo "$out" | grep -c "^VIOLATION"); he=$(echo "$out" | grep -c "HARNESS")
   v="silent"; [ "$nv" -gt 0 ] && v="FALSE-ALARM"; [ "$he" -gt 0 ] && v="HARNESS-ERROR"
+  echo "$out" | grep -q "PATCH-FAILED" && v="does not apply to the current HEAD (made for repo commit 1a96393; was silent there)"
   printf "%-20s -> %s\n" "$id" "$v"
   [ "$v" != "silent" ] && echo "$out" | grep -E "VIOLATION|what:|HARNESS" | cut -c1-300
 done
